@@ -37,7 +37,10 @@ func init() {
 			"OS/2 selection flags only in combinations the OS/2 specification allows",
 			"strings are valid UTF-8 within the 16-bit offsets of the name table",
 			"comparison: FDSelect extensionally, times by instant, CFF font matrices / real-valued dictionary entries to 9 significant digits, nil == empty for slices and maps, everything else exactly",
+			"simple CFF fonts have at most 60000 glyphs (16-bit string ids), CIDs are at most 65535",
 		},
+		HardSec: 900,
+		SoftSec: 300,
 	}, runC01)
 }
 
@@ -353,6 +356,11 @@ func c01opts(k *mon.Case) fontgen.Opts {
 	}
 	if k.C.Thorough() && k.Index%500 == 11 {
 		o.MinGlyphs, o.MaxGlyphs = 65535, 65535
+		if o.Kind == "cff" {
+			// glyph names are strings with 16-bit string ids (391 are predefined):
+			// a simple CFF font cannot name 65535 glyphs individually
+			o.MinGlyphs, o.MaxGlyphs = 60000, 60000
+		}
 	} else if k.C.Thorough() && k.Index%100 == 7 {
 		o.MinGlyphs, o.MaxGlyphs = 9000, 11000
 	}
